@@ -178,7 +178,12 @@ func register() {
 		}
 		f4 := func(args ...string) (handler.Handler4, error) { return nil, fmt.Errorf("synthetic setup failure") }
 		f6 := func(args ...string) (handler.Handler6, error) { return nil, fmt.Errorf("synthetic setup failure") }
+		// a failing setup may also hand back a usable handler next to the error (dns, router and
+		// staticroute report a bad argument exactly like that): it still aborts start-up
+		fh4 := func(args ...string) (handler.Handler4, error) { return h4("modify", 99), fmt.Errorf("synthetic setup failure") }
+		fh6 := func(args ...string) (handler.Handler6, error) { return h6("modify", 99), fmt.Errorf("synthetic setup failure") }
 		for _, p := range []*plugins.Plugin{
+			{Name: "vfailh4", Setup4: fh4, Setup6: s6}, {Name: "vfailh6", Setup4: s4, Setup6: fh6},
 			{Name: "vs4", Setup4: s4}, {Name: "vs6", Setup6: s6}, {Name: "vsd", Setup4: s4, Setup6: s6},
 			{Name: "vfail4", Setup4: f4, Setup6: s6}, {Name: "vfail6", Setup4: s4, Setup6: f6},
 		} {
@@ -189,7 +194,7 @@ func register() {
 	})
 }
 
-var pname = map[string]string{"s4": "vs4", "s6": "vs6", "sd": "vsd", "unknown": "vnosuchplugin", "fail4": "vfail4", "fail6": "vfail6"}
+var pname = map[string]string{"s4": "vs4", "s6": "vs6", "sd": "vsd", "unknown": "vnosuchplugin", "fail4": "vfail4", "fail6": "vfail6", "failh4": "vfailh4", "failh6": "vfailh6"}
 
 func supports(kind string, proto int) bool {
 	switch kind {
@@ -246,7 +251,7 @@ func eval(r *ev.Run, c Case) {
 	var want []Item
 	var wantTags []byte
 	for i, it := range c.Chain {
-		if it.Kind == "unknown" || (it.Kind == "fail4" && c.Proto == 4) || (it.Kind == "fail6" && c.Proto == 6) {
+		if it.Kind == "unknown" || ((it.Kind == "fail4" || it.Kind == "failh4") && c.Proto == 4) || ((it.Kind == "fail6" || it.Kind == "failh6") && c.Proto == 6) {
 			wantErr = true
 			break
 		}
@@ -392,7 +397,7 @@ func run(r *ev.Run) {
 		})
 	}
 	// kinds
-	kinds := []string{"s4", "s6", "sd", "unknown", "fail4", "fail6"}
+	kinds := []string{"s4", "s6", "sd", "unknown", "fail4", "fail6", "failh4", "failh6"}
 	var rk func(prefix []Item, n int)
 	rk = func(prefix []Item, n int) {
 		if len(prefix) == n {
